@@ -568,7 +568,7 @@ template<class T> static void gen_T(Rng& r, long n) {
       T tau = std::ldexp((T) r.range(1, 2), r.irange(-60, 60)) * (r.coin() ? 1 : -1);
       if (i % 34 == 0) tau = (T) r.pick(std::vector<double>{0.0, -0.0, INFINITY, -INFINITY, 70, -70, 71, -71, 1e8, -1e8, 2e8, -2e8, 1e9, -1e9});
       stratum("taupf-" + tg); run("gtaupf", {tg, tok(tau), tok(es)});
-      // deterministic witness of the open finding on Math::tauf (early exit on the low-order guess), double
+      // deterministic witness of finding F76 on Math::tauf (early exit on the low-order guess; repaired in b3c5a1d), double
       if (i % 1000 == 0 && tg == "d") { stratum("taupf-d-extreme-eccentricity"); run("gtaupf", {tg, tok(T(270000)), tok(T(0.9999999))}); }
     }
     if (i % 20 == 0) {
